@@ -22,7 +22,7 @@ fn num_lit(text: &str, value: f64) -> Expr {
 }
 
 fn rand_string(rng: &mut Rng) -> String {
-    const WORDS: [&str; 12] = [
+    const WORDS: [&str; 15] = [
         "",
         "a",
         "ab",
@@ -35,6 +35,10 @@ fn rand_string(rng: &mut Rng) -> String {
         "ABCDEFGHIJKLMNO", // 15
         "1234567890123",   // 13
         "zone!",
+        // text beyond ASCII: one column per character, whatever the bytes on the device
+        "h\u{e9}llo",
+        "\u{c8}\u{c8}\u{c8}",
+        "ABCDEFGHIJKL\u{c9}", // 13
     ];
     rng.pick(&WORDS).to_string()
 }
@@ -169,11 +173,16 @@ fn rand_using(rng: &mut Rng) -> UsingFmt {
             l = " ";
         }
         text.push_str(l);
-        match rng.below(6) {
+        match rng.below(7) {
             0 => {
                 let w = 2 + rng.below(3);
                 text.push_str(&"#".repeat(w));
                 fields.push(('i', w, 0));
+            }
+            6 => {
+                // wide enough for whole numbers that no SINGLE holds exactly
+                text.push_str("#########");
+                fields.push(('I', 9, 0));
             }
             1 => {
                 text.push_str("#,###");
@@ -212,11 +221,14 @@ fn rand_using(rng: &mut Rng) -> UsingFmt {
 
 fn using_value(rng: &mut Rng, f: (char, usize, usize)) -> Expr {
     match f.0 {
+        'I' => Expr::Int(*rng.pick(&[16777217, 123456789, 99999999, 33554433, 7, -16777219])),
         'i' => {
             let max = 10i64.pow((f.1.min(4)) as u32 - 1) - 1;
             let v = rng.range(0, max.max(1)) as i32;
             if rng.chance(1, 5) && f.1 >= 3 {
-                Expr::Int(-(v % 10))
+                // the sign takes one position of the field (in #,### three digits still fit)
+                let m = if f.1 >= 5 { 1000 } else if f.1 == 4 { 100 } else { 10 };
+                Expr::Int(-(v % m))
             } else {
                 Expr::Int(v)
             }
@@ -786,6 +798,7 @@ fn gen_file_program(rng: &mut Rng, exists: &mut BTreeSet<String>) -> Scenario {
     let violate = |rng: &mut Rng| rng.chance(1, 8);
     let nops = 3 + rng.below(20);
     let mut random_open: Option<i32> = None;
+    let random_len: i32 = *rng.pick(&[8, 8, 10, 12]);
     let mut put_records: BTreeSet<i32> = BTreeSet::new();
     for _ in 0..nops {
         let w = [10u32, 10, 8, 8, 4, 6, 3, 3, 6];
@@ -1041,7 +1054,9 @@ fn gen_file_program(rng: &mut Rng, exists: &mut BTreeSet<String>) -> Scenario {
                         name: "R.DAT".into(),
                         mode: Mode::Random,
                         handle: 3,
-                        len: Some(*rng.pick(&[8, 8, 10, 12])),
+                        // one record length per program: what was PUT before a CLOSE must
+                        // still be there after the file is opened again
+                        len: Some(random_len),
                     }));
                     main.push(ids.st(StmtKind::Field {
                         handle: 3,
@@ -1049,13 +1064,13 @@ fn gen_file_program(rng: &mut Rng, exists: &mut BTreeSet<String>) -> Scenario {
                     }));
                     abs.open.insert(3, (Mode::Random, "R.DAT".into()));
                     random_open = Some(3);
-                    put_records.clear();
                 }
                 let k = 1 + rng.below(3);
                 for _ in 0..k {
                     if put_records.is_empty() || rng.chance(1, 2) {
-                        let a = *rng.pick(&["abcd", "WXYZ", "1234", "q  z"]);
-                        let b = *rng.pick(&["efgh", "0000", "mnop"]);
+                        // (some values are longer than the field: PUT writes the field's width)
+                        let a = *rng.pick(&["abcd", "WXYZ", "1234", "q  z", "abcdefgh", "toolong!"]);
+                        let b = *rng.pick(&["efgh", "0000", "mnop", "overflowing"]);
                         main.push(ids.st(StmtKind::Lset {
                             var: "FA$".into(),
                             expr: Expr::Str(a.into()),
